@@ -226,7 +226,7 @@ Definition fit_ops (cd : code) (c : cfg) (tag : nat) (s : fs)
             | _ => ([], inr g, true, true)
             end
           else ([], inl KeyErr, false, true)                  (* OptimizeResult["x0"] *)
-      | Full Plain => ([], inl KeyErr, false, true)
+      | Full Plain => fresh                                    (* not a state a pickle can be in *)
       | Part PEmpty => ([], inl EOFErr, false, true)
       | Part PHalf => ([], inl Unpickling, false, true)
       end
